@@ -82,6 +82,7 @@ type Contract struct {
 	Witness  []*Clause // expressions (entry state) whose model values are handed to the replay scenario
 	Fresh    []string  // named results that are freshly allocated objects
 	Before   map[string][]*Clause // "before <callee>: <expr>": must hold at every call of <callee> (by short method/function name) in this function
+	Rely     map[string][]*Clause // "rely <callee>: <expr>": assumed after every call of <callee> in this function (monitor invariant re-established by the other threads)
 	Sets     []*Clause // ghost assignments performed at every return: "sets <ghost location> = <expr>" (Exprs: [lhs, rhs])
 	Splits   []*Clause // case split: "split <expr>: v1, v2, ..." or "split <expr> pow2 lo hi"
 	// filled at bind time
@@ -145,10 +146,13 @@ type ContractSet struct {
 	Errors    []string
 }
 
+// currentTier is set from the command line before the contract files are read.
+var currentTier = "quick"
+
 var clauseKeywords = map[string]bool{
 	"property": true, "requires": true, "ensures": true, "modifies": true, "loop": true,
 	"inline": true, "trusted": true, "abstract": true, "nosafety": true, "replay": true,
-	"bounded": true, "note": true, "fnparam": true, "dispatch": true, "unroll": true, "assumes": true, "split": true, "fresh": true, "witness": true, "unguarded": true, "alsoinline": true, "timeout": true, "sets": true, "before": true,
+	"bounded": true, "note": true, "fnparam": true, "dispatch": true, "unroll": true, "assumes": true, "split": true, "fresh": true, "witness": true, "unguarded": true, "alsoinline": true, "timeout": true, "sets": true, "before": true, "rely": true,
 }
 
 var propPrefix = regexp.MustCompile(`^\[((?:C\d+\s*)+)\]\s*`)
@@ -482,11 +486,21 @@ func (c *Contract) addClause(text string, line int, file string) error {
 			}
 			ls.Modifies = append(ls.Modifies, cl)
 		case "unroll":
-			n, err := strconv.Atoi(strings.TrimSpace(rest2))
+			// loop N unroll K [Kthorough]: bound of the quick tier and, optionally, of the thorough tier
+			ff := strings.Fields(rest2)
+			if len(ff) == 0 {
+				return fmt.Errorf("loop N unroll K [Kthorough]")
+			}
+			n, err := strconv.Atoi(ff[0])
 			if err != nil {
 				return err
 			}
 			ls.Unroll = n
+			if len(ff) > 1 && currentTier == "thorough" {
+				if m, err := strconv.Atoi(ff[1]); err == nil {
+					ls.Unroll = m
+				}
+			}
 		case "step":
 			cl, err := mk("step", rest2)
 			if err != nil {
@@ -605,6 +619,20 @@ func (c *Contract) addClause(text string, line int, file string) error {
 			c.Before = map[string][]*Clause{}
 		}
 		c.Before[callee] = append(c.Before[callee], cl)
+	case "rely":
+		i := strings.Index(rest, ":")
+		if i < 0 {
+			return fmt.Errorf("rely <callee>: <expr>")
+		}
+		callee := strings.TrimSpace(rest[:i])
+		cl, err := mk("rely", strings.TrimSpace(rest[i+1:]))
+		if err != nil {
+			return err
+		}
+		if c.Rely == nil {
+			c.Rely = map[string][]*Clause{}
+		}
+		c.Rely[callee] = append(c.Rely[callee], cl)
 	case "sets":
 		i := strings.Index(rest, " = ")
 		if i < 0 {
